@@ -31,7 +31,7 @@ class C12(Scenario):
     budget = {"quick": 30, "thorough": 600, "minimise": 60}
     rule = ("three workloads chosen by run index: (a) close/read protocol - InotifyBuffer/InotifyEmitter closed by a task racing the reader thread (statement-level pre-emption inside Inotify.close/"
             "read_events, file-system activity in flight, close placed after 0..N actor steps); (b) failing construction - for a recursive tree with m directories the failure is injected at "
-            "inotify_init, pipe, and at add_watch number k for every k in 0..m in turn (errno cycles over the man-page lists) through Inotify(), InotifyBuffer(), emitter.start(), "
+            "inotify_init, pipe, at add_watch number k for every k in 0..m in turn (errno cycles over the man-page lists) and at the start of the reader and the emitter thread (\"can't start new thread\") through Inotify(), InotifyBuffer(), emitter.start(), "
             "observer.schedule() on a running observer and observer.start(), plus a really missing root; (c) cycles of schedule/unschedule/start/stop incl. failing ones on the real kernel; "
             "distinct = distinct (workload, fault position, errno, history, interleaving); non-trivial = a fault fired or a pre-emption was taken")
     level_text = ("Descriptor state machine of the kernel shim (open -> closed; any read/poll/write/close on a closed descriptor, double close) plus the task table: after close()/stop()/unschedule() "
@@ -66,7 +66,7 @@ class C12(Scenario):
                 case["faults"]["short_read"] = [rng.choice([32, 64, 0])]
         elif mode == "construct":
             k = (idx // 3) % 16
-            positions = ["init", "pipe"] + [f"add{i}" for i in range(ndirs)] + ["missing-root", "none"]
+            positions = ["init", "pipe"] + [f"add{i}" for i in range(ndirs)] + ["missing-root", "none", "thread:InotifyBuffer", "thread:Em"]
             pos = positions[k % len(positions)]
             case["level"] = LEVELS[((idx // 3) // 16) % len(LEVELS)]
             k = idx // 3
@@ -77,6 +77,13 @@ class C12(Scenario):
                 case["faults"]["pipe_fail"] = errno.EMFILE
             elif pos.startswith("add"):
                 case["faults"]["add_fail"] = {pos[3:]: ADD_ERRNOS[k % len(ADD_ERRNOS)]}
+            elif pos.startswith("thread:"):
+                if pos == "thread:Em" and case["level"] in ("inotify", "buffer"):
+                    case["position"] = pos = "thread:InotifyBuffer"
+                if case["level"] == "inotify":
+                    case["position"] = pos = "none"
+                else:
+                    case["sched"]["thread_start_fail"] = {pos.split(":")[1]: 0}
         else:
             ops = []
             started = False
@@ -243,6 +250,7 @@ class C12(Scenario):
             root = root + "-missing"
         rootb = os.fsencode(root)
         will_fail = pos != "none"
+        fail_excs = (OSError, RuntimeError) if pos.startswith("thread:") else (OSError,)
         if pos.startswith("add") and list(case["faults"]["add_fail"].values())[0] == errno.EACCES:
             will_fail = False  # EACCES is swallowed by design (unreadable directories are skipped)
         raised = None
@@ -265,9 +273,9 @@ class C12(Scenario):
                 obj = obs
                 obs.schedule(run.handlers[0], root, recursive=True)
                 obs.start()
-        except OSError as e:
+        except fail_excs as e:
             raised = e
-            sim.rec("raised", type(e).__name__, e.errno)
+            sim.rec("raised", type(e).__name__, getattr(e, "errno", None))
         if will_fail and raised is None:
             res["checks"].append({"what": f"failure-swallowed:{level}:{pos}", "open_fds": [], "alive": []})
         if not will_fail and raised is not None:
